@@ -107,6 +107,12 @@ impl RPolicy {
         }
         e
     }
+    /// the non-scope part: `c1 && (c2 && (...))` with `unless {b}` read as `!b`; None without conditions
+    pub fn non_scope(&self) -> Option<E> {
+        let mut it = self.conds.iter().rev().map(|(w, body)| if *w { body.clone() } else { E::Not(b(body.clone())) });
+        let last = it.next()?;
+        Some(it.fold(last, |acc, prev| E::And(b(prev), b(acc))))
+    }
     pub fn outcome(&self, cx: &Ctx<'_>) -> (Outcome, Option<Err>) {
         match eval(&self.condition(), cx) {
             Ok(V::Bool(true)) => (Outcome::Sat, None),
